@@ -78,7 +78,7 @@ def cliOp (args impl : List String) : Option (String × String) := do
       | .ok p =>
         -- logfmt=json: the command uses f1's own JSON logger, so there is no captured summary; the body's own counters stand in
         -- for the counts (such cases use users mode: nothing is dropped) and the banner clauses do not apply
-        let jsonLog := (get "logfmt") = some "json"
+        let jsonLog := (get "logfmt") = some "json" ∨ (get "logfmt") = some "text"
         let truth := triple "truth"
         let stats := if jsonLog then truth ++ [0] else triple "stats"
         let succ := (stats.getD 0 0).toNat; let failed := (stats.getD 1 0).toNat; let dropped := (stats.getD 2 0).toNat
